@@ -33,6 +33,9 @@ type c26Case struct {
 	// MergeFPR: the merge is run by a second engine over the same stores whose
 	// configured rate is this one (0 = the writing engine merges)
 	MergeFPR float64 `json:"merge_fpr,omitempty"`
+	// Solo: a tenth of the second file's rows go to a partition of their own:
+	// that block has no merge partner and is copied verbatim by the merge
+	Solo bool `json:"solo,omitempty"`
 }
 
 func genC26() *rapid.Generator[c26Case] {
@@ -61,6 +64,7 @@ func genC26() *rapid.Generator[c26Case] {
 		if c.Merge && chance(t, "mergefpr", 60) {
 			c.MergeFPR = pick(t, "mfpr", []float64{0.001, 0.0001, 0.01, 1e-6, 0.1})
 		}
+		c.Solo = c.Merge && chance(t, "solo", 50)
 		return c
 	})
 }
@@ -117,9 +121,17 @@ func runC26(c c26Case) *Violation {
 	cfg.MaxRowGroupBytes = 1 << 30
 	cfg.BloomFalsePositiveRate = c.FPR
 	cfg.RowDataCompression = bs.CompressionType(c.Comp)
-	if c.Partitions > 1 {
+	if c.Partitions > 1 || c.Solo {
 		np := c.Partitions
-		cfg.PartitionFunc = func(row map[string]any) string { return fmt.Sprintf("p%d", row["id"].(int)%np) }
+		if np < 1 {
+			np = 1
+		}
+		cfg.PartitionFunc = func(row map[string]any) string {
+			if s, _ := row["solo"].(bool); s {
+				return "solo"
+			}
+			return fmt.Sprintf("p%d", row["id"].(int)%np)
+		}
 	}
 	ds := NewMemDataStore(false)
 	ms := bs.NewMemoryMetaStore()
@@ -163,6 +175,9 @@ func runC26(c c26Case) *Violation {
 			row := map[string]any{"id": rowID, "t": sb.String()}
 			for f := 1; f < c.Fields; f++ {
 				row[fmt.Sprintf("t%d", f)] = row["t"]
+			}
+			if c.Solo && fi == 1 && rowID%10 == 0 {
+				row["solo"] = true
 			}
 			rows = append(rows, row)
 			rowID++
